@@ -655,7 +655,7 @@ func (c *Ctx) runHashCongruence(rule string, pkgs []*packages.Package) {
 					c.analysed(qname(fn))
 					key := qname(fn) + " " + f.Name()
 					arg := call.Call.Args[0]
-					if canonicalZero(arg) {
+					if canonicalZero(arg) || nonZeroAt(arg, b) {
 						c.ok(rule, key, call.Pos(), "a zero value is canonicalised before its bits are taken, so keys that are == hash equally")
 					} else {
 						c.bad(rule, key, call.Pos(), "the hash takes the bits of an arithmetic result without canonicalising zero: -0 and +0 keys are == but hash differently, so the fast map misses entries an ordinary map finds")
@@ -691,6 +691,94 @@ func canonicalZero(v ssa.Value) bool {
 			if k, ok := constFloat(x.Y); ok && k == 0 {
 				return true
 			}
+		}
+	}
+	return false
+}
+
+// lazyIndexBuilder: the Store publishes, into the receiver of the method fn, an
+// index that fn allocated itself (NewCoordToSlice...) and fn ranges over the
+// faces of that same receiver.
+func lazyIndexBuilder(fn *ssa.Function, fa *ssa.FieldAddr, store *ssa.Call, faces *types.Var) bool {
+	if fn.Signature.Recv() == nil || len(fn.Params) == 0 || fa.X != ssa.Value(fn.Params[0]) || len(store.Call.Args) < 2 {
+		return false
+	}
+	fresh := func(v ssa.Value) bool {
+		call, ok := v.(*ssa.Call)
+		if !ok {
+			return false
+		}
+		callee := call.Call.StaticCallee()
+		return callee != nil && strings.HasPrefix(callee.Name(), "NewCoordToSlice")
+	}
+	ownLookup := func(v ssa.Value) bool {
+		call, ok := v.(*ssa.Call)
+		if !ok {
+			return false
+		}
+		callee := call.Call.StaticCallee()
+		return callee != nil && callee.Name() == "getVertexToFaceOrNil" && len(call.Call.Args) > 0 && call.Call.Args[0] == ssa.Value(fn.Params[0])
+	}
+	v := store.Call.Args[1]
+	if mi, ok := v.(*ssa.MakeInterface); ok {
+		v = mi.X
+	}
+	okVal := false
+	if fresh(v) {
+		okVal = true
+	} else if ld, ok := v.(*ssa.UnOp); ok && ld.Op == token.MUL {
+		if al, ok := ld.X.(*ssa.Alloc); ok {
+			okVal = true
+			any := false
+			for _, ref := range *al.Referrers() {
+				if st, ok := ref.(*ssa.Store); ok && st.Addr == ssa.Value(al) {
+					if fresh(st.Val) {
+						any = true
+					} else if !ownLookup(st.Val) {
+						okVal = false
+					}
+				}
+			}
+			okVal = okVal && any
+		}
+	}
+	if !okVal {
+		return false
+	}
+	for _, b := range fn.Blocks {
+		for _, ins := range b.Instrs {
+			if f2, ok := ins.(*ssa.FieldAddr); ok && fieldOf(f2) == faces && f2.X == ssa.Value(fn.Params[0]) {
+				for _, ref := range *f2.Referrers() {
+					if ld, ok := ref.(*ssa.UnOp); ok {
+						for _, r2 := range *ld.Referrers() {
+							if _, isRange := r2.(*ssa.Range); isRange {
+								return true
+							}
+						}
+					}
+				}
+			}
+		}
+	}
+	return false
+}
+
+// nonZeroAt: v is a constant (one bit pattern), or the facts at b say v != 0 —
+// the zeros, of either sign, took the other branch.
+func nonZeroAt(v ssa.Value, b *ssa.BasicBlock) bool {
+	if _, ok := constFloat(v); ok {
+		return true
+	}
+	for _, f := range factsAt(b) {
+		be, ok := f.cond.(*ssa.BinOp)
+		if !ok || be.X != v {
+			continue
+		}
+		if k, ok := constFloat(be.Y); !ok || k != 0 {
+			continue
+		}
+		if (be.Op == token.NEQ && f.taken) || (be.Op == token.EQL && !f.taken) {
+			return true
 		}
 	}
 	return false
@@ -772,8 +860,8 @@ func (c *Ctx) runMeshRules(prefix string, pkgShort string) {
 					continue
 				}
 				key := qname(fn) + " publishes the vertex index"
-				if fn.Name() == "getVertexToFace" {
-					c.ok(prefix+".OWNER", key, call.Pos(), "the lazy builder")
+				if lazyIndexBuilder(fn, fa, call, faces) {
+					c.ok(prefix+".OWNER", key, call.Pos(), "the lazy builder: a fresh index, filled while ranging over the receiver's own faces, is stored into the receiver")
 				} else {
 					c.bad(prefix+".OWNER", key, call.Pos(), "a vertex index is stored outside the lazy builder getVertexToFace: it is not built from this mesh's own faces (shared or stale index)")
 				}
